@@ -39,9 +39,14 @@ func (v *variant) enter() {
 }
 func (v *variant) leave() { activeSpec = nil }
 
+// activeCellFlags: captured boolean flag variables whose value is known while a deferred function literal is analysed for one
+// particular exit of its parent (`reacquire := false; defer func() { if reacquire { c.L.Lock() } }(); …; reacquire = true; return
+// nil`): see PF.step, RunDefers.
+var activeCellFlags map[*ssa.Alloc]bool
+
 // specFlagValue: cond is (a negation of) a load of the active specialisation's flag field → the value the condition has.
 func specFlagValue(cond ssa.Value) (val bool, ok bool) {
-	if activeSpec == nil {
+	if activeSpec == nil && len(activeCellFlags) == 0 {
 		return false, false
 	}
 	pol := true
@@ -57,6 +62,14 @@ func specFlagValue(cond ssa.Value) (val bool, ok bool) {
 	if !isLd || ld.Op != token.MUL {
 		return false, false
 	}
+	if cell := cellOf(ld.X); cell != nil {
+		if v, known := activeCellFlags[cell]; known {
+			return v == pol, true
+		}
+	}
+	if activeSpec == nil {
+		return false, false
+	}
 	fa, isFA := ld.X.(*ssa.FieldAddr)
 	if !isFA || fieldName(fa.X.Type(), fa.Field) != activeSpec.flag {
 		return false, false
@@ -70,7 +83,7 @@ func specFlagValue(cond ssa.Value) (val bool, ok bool) {
 
 // specDead: b can only be reached through a branch on the flag that the active specialisation does not take.
 func specDead(b *ssa.BasicBlock) bool {
-	if activeSpec == nil {
+	if activeSpec == nil && len(activeCellFlags) == 0 {
 		return false
 	}
 	for _, g := range guardsOfRaw(b) {
